@@ -509,6 +509,9 @@ def _gen_op(s, op, a, i, rr, tkw):
                 s.rec.ev('ret', api='streaming_shell', avail=bool(s.device.available), clk=int(s.clock.time()))
             elif name:
                 rr.held[name] = dict(gen=g, items=items, i=i, outcome=out)
+                if op.get('freeze'):
+                    # the device says nothing more on this stream for the time being (released by a later op's `thaw_after`)
+                    s.dev.frozen = set(s.dev.frozen) | {st_.lid for st_ in s.dev.all_streams if getattr(st_, 'op', None) == i}
             else:
                 if s.mode == 'sync':
                     g.close()
@@ -576,6 +579,8 @@ def run_op(s, op, a, tmp, i, rr):
             return run_op(s, {k: v for k, v in op.items() if k != 'refuse'}, a, tmp, i, rr)
         finally:
             s.dev.refuse_open = lambda dest: False
+    if 'thaw_after' in op:
+        s.dev.thaw_after = op['thaw_after']        # frozen streams speak again after this many data WRITEs of this operation
     if 'budget' in op:
         s.dev.budget = op['budget']
         try:
